@@ -36,18 +36,31 @@ class npf_stub:
             def pv(rate, nper, pmt, fv=0, when='end'):
                 CALLS.append(('pv', rate, nper, pmt, fv, when))
                 return RES[0]
+            @staticmethod
+            def irr(values):
+                CALLS.append(('irr', tuple(values)))
+                return RES[0]
         FIN.npf = Stub
+        self.old_newton = FIN.newton
+
+        def newton(func, x0, *a, **kw):
+            # contract stub of scipy.optimize.newton: records the start, probes the function handed over, returns the "root"
+            CALLS.append(('newton', x0, tuple(func(r) for r in PROBE_RATES), a, tuple(sorted(kw))))
+            return RES[0]
+        FIN.newton = newton
         self.on = True
         STUB[0] = True
         return self
 
     def __exit__(self, *a):
         FIN.npf = self.old
+        FIN.newton = self.old_newton
         STUB[0] = False
         self.fs.__exit__(*a)
 
 
 STUB = [False]
+PROBE_RATES = (0.0, 0.1, 1.0)
 
 
 def nval(r):
@@ -171,4 +184,59 @@ def build(tier, seed):
                   witness=[(0.01, 10.0, -100.0, 0.0, False, 5.0), (0.1, 5.0, -100.0, 50.0, True, 1.0)], timeout=120, cost=5, family='c20.plumbing', ctx=npf_stub, stubs=['P4'],
                   bounds='PV(rate, nper, pmt, fv, type) hands (rate, nper, pmt, fv, when = type) to the annuity routine (either timing) and returns its result',
                   show=lambda *a: f'PV{a[:5]!r}'))
+    # ---------------- IRR / XIRR: the root finders themselves are third-party float iterations (outside); decided here: what the
+    # functions hand to them and that they hand the root back - on every call, whatever was solved before
+    XD = [datetime.datetime(2020, 1, 1), datetime.datetime(2021, 1, 1), datetime.datetime(2022, 7, 1)]
+    XSER = [43831.0, 44197.0, 44743.0]
+    XFLOWS = [[-1000.0, 3000.0, 2500.0], [-1000.0, 500.0, 600.0], [-1000.0, 100.0, 1200.0], [-5000.0, 2000.0, 4000.0]]
+
+    def ref_xnpv(r, flows, sers):
+        return sum(v / ((1.0 + r) ** ((d - sers[0]) / 365)) for v, d in zip(flows, sers))
+
+    XCOEF = [tuple((1.0 + pr) ** -((d - XSER[0]) / 365) for d in XSER) for pr in PROBE_RATES]
+
+    def h_xirr(a0: float, a1: float, a2: float, second_first: bool, guess: float, u1: float, u2: float) -> bool:
+        fixed = (-1000.0, 400.0, 700.0)
+        order = ((fixed, u1), ((a0, a1, a2), u2)) if second_first else (((a0, a1, a2), u1), (fixed, u2))
+        for flows, u in order:
+            RES[0] = u
+            del CALLS[:]
+            if not STUB[0]:
+                # native run: the real solver; the returned rate is a root of XNPV of the same flows
+                v = FIN._xirr(list(flows), list(XSER), guess)
+                if abs(ref_xnpv(v, flows, XSER)) > 1e-6 * sum(abs(f) for f in flows):
+                    return False
+                continue
+            r = FIN._xirr(list(flows), list(XSER), guess)
+            if len(CALLS) != 1 or CALLS[0][0] != 'newton':
+                return False
+            _, x0, probes, a, kw = CALLS[0]
+            if not (x0 == guess and r == u and len(probes) == 3):
+                return False
+            for p_, pr in zip(probes, PROBE_RATES):
+                if p_ != ref_xnpv(pr, flows, XSER):          # the defining sum, term by term (exact over the reals)
+                    return False
+        return True
+    obs.append(Ob('c20.XIRR[solver call, two consecutive schedules]', h_xirr,
+                  pre=lambda a0, a1, a2, sf, guess, u1, u2: -1e6 <= a0 <= 1e6 and -1e6 <= a1 <= 1e6 and -1e6 <= a2 <= 1e6 and -0.9 < guess <= 10 and -0.9 < u1 <= 10 and -0.9 < u2 <= 10,
+                  witness=[(-1000.0, 3000.0, 2500.0, False, 0.1, 0.5, 0.2), (-1000.0, 500.0, 600.0, True, 0.1, 0.2, 0.3), (-1000.0, 9000.0, 9000.0, False, 0.1, 0.1, 0.1), (-1000.0, 9000.0, 9000.0, True, 0.1, 0.1, 0.1)],
+                  timeout=300, cost=20, family='c20.plumbing', ctx=npf_stub,
+                  stubs=['P4 scipy.optimize.newton contract stub (records the start value, probes the function at 3 rates, returns a symbolic root)'],
+                  bounds='_xirr (the kernel behind XIRR, after its pandas zero-filter / date sort, which cannot be traced) called twice over the same 3 dates, once with symbolic real flows in -10^6..10^6 and once with the flows (-1000, 400, 700), in either order; guess and the '
+                         'solver\'s roots in (-0.9, 10]: each call hands the solver the start value `guess` and the function r -> XNPV(r, flows, dates) (compared at 3 rates: linear in the flows) and returns '
+                         'its root, whatever was solved before; native witnesses run the real solver and check XNPV(root) = 0 within 1e-6 relative',
+                  show=lambda *a: f'_xirr({a[:3]!r}) {"after" if a[3] else "before"} _xirr((-1000, 400, 700)), guess={a[4]}'))
+
+    def h_irr(a: float, b: float, c: float, u: float) -> bool:
+        RES[0] = u
+        del CALLS[:]
+        r = FIN.IRR(T.Array([[a], [b], [c]]))
+        if not STUB[0]:
+            v = nval(r)
+            return v is not None and abs(a + b / (1 + v) + c / (1 + v) ** 2) <= 1e-6 * (abs(a) + abs(b) + abs(c))
+        return len(CALLS) == 1 and CALLS[0] == ('irr', (a, b, c)) and nval(r) == u
+    obs.append(Ob('c20.IRR[plumbing]', h_irr, pre=lambda a, b, c, u: -1e6 <= a < 0 and 0 < b <= 1e6 and 0 < c <= 1e6 and b + c > -a and -0.9 < u <= 10,
+                  witness=[(-1000.0, 600.0, 700.0, 0.2), (-100.0, 60.0, 60.0, 0.1)], timeout=120, cost=5, family='c20.plumbing', ctx=npf_stub, stubs=['P4 numpy_financial.irr recording stub'],
+                  bounds='IRR over three cash flows (an outlay followed by returns that exceed it, symbolic reals): hands exactly the flows, in order, to the root finder and returns its root; native witnesses: NPV(root) = 0 within 1e-6 relative',
+                  show=lambda a, b, c, u: f'IRR({a}, {b}, {c})'))
     return obs
